@@ -164,9 +164,19 @@ def ql(a):
 
 
 # ------------------------------------------------------------------ running the implementation
-def T(a, requires_grad=False):
+def T(a, requires_grad=False, layout="C"):
+    """float64 Tensor with the given values; layout 'C' (contiguous), 'F' (Fortran order: what a chain of transposes that reverses all
+    axes produces) or 'S' (a non-contiguous strided view).  The ops must not depend on the memory layout of their operands."""
     impl = _impl()
-    return impl.synapgrad.Tensor(impl.np.array(a, dtype=impl.np.float64), requires_grad=requires_grad)
+    np = impl.np
+    arr = np.array(a, dtype=np.float64)
+    if layout == "F" and arr.ndim > 1:
+        arr = np.asfortranarray(arr)
+    elif layout == "S" and arr.ndim > 0 and arr.size > 0:
+        big = np.zeros(arr.shape[:-1] + (2 * arr.shape[-1],), dtype=np.float64)
+        big[..., ::2] = arr
+        arr = big[..., ::2]
+    return impl.synapgrad.Tensor(arr, requires_grad=requires_grad)
 
 
 def call(f, *a, **k):
@@ -250,25 +260,26 @@ def run_impl(P, backward=False):
     op = P["op"]
     ks, st, pd, dl = geo_args(P)
     ins = {}
+    lay = P.get("layout", "C")
     if op in ("conv2d", "conv1d"):
-        ins["x"] = T(P["x"], backward)
-        ins["w"] = T(P["w"], backward)
+        ins["x"] = T(P["x"], backward, lay)
+        ins["w"] = T(P["w"], backward, "F" if lay == "S" else "C")
         if P.get("b") is not None:
             ins["b"] = T(P["b"], backward)
         f = NF.conv2d if op == "conv2d" else NF.conv1d
         out = f(ins["x"], ins["w"], ins.get("b"), st, pd, dl)
     elif op in ("max_pool2d", "avg_pool2d", "max_pool1d", "avg_pool1d"):
-        ins["x"] = T(P["x"], backward)
+        ins["x"] = T(P["x"], backward, lay)
         f = getattr(NF, op)
         if P.get("default_stride"):
             out = f(ins["x"], ks, None, pd, dl)
         else:
             out = f(ins["x"], ks, st, pd, dl)
     elif op == "unfold":
-        ins["x"] = T(P["x"], backward)
+        ins["x"] = T(P["x"], backward, lay)
         out = NF.unfold(ins["x"], ks, dl, st, pd, P.get("pv", 0))
     elif op == "fold":
-        ins["x"] = T(P["y"], backward)
+        ins["x"] = T(P["y"], backward, lay)
         out = NF.fold(ins["x"], (P["g"]["H"], P["g"]["W"]), ks, dl, st, pd)
     else:
         raise KeyError(op)
@@ -633,11 +644,11 @@ def term_backward(P, grads):
 
 
 # ------------------------------------------------------------------ payload generation
-def make_payload(rng, op, g, bias=True, form="tuple", data="ints"):
+def make_payload(rng, op, g, bias=True, form="tuple", data="ints", layout="C"):
     """integer-valued inputs for op on geometry g (avg pools: multiples of the kernel size so that every mean is an integer is NOT
     needed: results are compared as exact rationals)"""
     np = _impl().np
-    P = {"op": op, "g": dict(g), "form": form}
+    P = {"op": op, "g": dict(g), "form": form, "layout": layout}
     if is2d(op):
         xs = (g["N"], g["C"], g["H"], g["W"])
     else:
